@@ -1,5 +1,10 @@
 package dagaz
 
+import "sync"
+
+// State is the dagaz state of a session. The spatial partition is shared by all
+// the participants of the session: it must only be used while holding Mutex.
 type State struct {
+	Mutex            sync.Mutex
 	SpatialPartition SpatialPartition
 }
